@@ -478,6 +478,16 @@ def gen_trees(seed, count, maxdepth):
     stackish += [("seq", [("push", ("str", b"a")), ("push", ("str", b"b")), ("choice", [("match_peek",), ("chain", [("str", b"b"), ("str", b"c")])]), ("eoi",)]),
                  ("seq", [("push_lit", b"ab"), ("push_lit", b"cd"), ("opt", ("peek_slice", 0, 2, False)), ("charby", "any")]),
                  ("chain", [("push_lit", b"a"), ("push_lit", b"b"), ("choice", [("peek_slice", 0, None, False), ("str", b"ax")])])]
+    # a repetition whose body succeeds without consuming input but changes the state (must run until the body fails)
+    stackish += [("seq", [("push_lit", b"a"), ("push_lit", b"b"), ("rep", ("drop",))]),
+                 ("seq", [("push", ("charby", "any")), ("push", ("charby", "any")), ("rep", ("drop",)), ("opt", ("peek",))]),
+                 ("seq", [("push_lit", b""), ("push_lit", b""), ("push_lit", b"a"), ("rep", ("pop",)), ("charby", "any")]),
+                 ("seq", [("push_lit", b"x"), ("push_lit", b"y"), ("rep", ("rule", 1, ("drop",)))]),
+                 ("seq", [("push", ("opt", ("str", b"a"))), ("push", ("opt", ("str", b"a"))), ("rep", ("pop",))])]
+    # a stack operation that pops and then fails, as the bare operand of a branching construct nested in another one
+    stackish += [("seq", [("push", ("str", b"a")), ("choice", [("str", b"x"), ("pop",), ("str", b"b")]), ("match_peek",)]),
+                 ("seq", [("push", ("str", b"a")), ("opt", ("seq", [("str", b"-"), ("opt", ("pop",))])), ("match_peek",)]),
+                 ("seq", [("push", ("str", b"a")), ("rep", ("choice", [("pop",), ("str", b"b")])), ("opt", ("match_peek",))])]
     stackish += [("pop",), ("peek",),
                  ("rep", ("rule", 1, ("str", b"a"))), ("opt", ("rule", 1, ("seq", [("str", b"a"), ("str", b"b")]))),
                  ("look", False, ("rule", 1, ("str", b"a"))), ("rule", 1, ("seq", [("str", b"a"), ("rep", ("rule", 2, ("range", 0x61, 0x7a)))])),
